@@ -401,6 +401,9 @@ func (x *Exec) obligeRaw(kind string, ordinal int, pos token.Pos, st *State, goa
 func (x *Exec) noteWrite(st *State, ref string, pos token.Pos, ordinal int) {
 	x.frameCheck(st, ref, pos, ordinal)
 	for depth, lc := range x.loopStack {
+		if lc.writesAll {
+			continue
+		}
 		alts := []string{app(">=", ref, lc.allocEntry)}
 		for _, r := range lc.modRefs {
 			alts = append(alts, eq(ref, r))
